@@ -1466,6 +1466,15 @@ func census(srv *subscribe.Server) (n int, found bool) {
 
 const serverWatchdog = 90 * time.Second
 
+// serverStalled is set when a watchdog expired in this process: the remaining
+// server trials are skipped (inconclusive) instead of each waiting again.
+var serverStalled bool
+
+func stalled(r *vlib.Run, reason string) {
+	serverStalled = true
+	r.Inconclusive(reason)
+}
+
 type liveStream struct {
 	req   sreq
 	st    *vlib.Stream
@@ -1492,6 +1501,10 @@ func offersByID(st *vlib.Stream) map[int64]int {
 
 func modeServer(r *vlib.Run) {
 	r.ForTrials("server", r.N(800, 16000), func(trial int, rng *rand.Rand) {
+		if serverStalled {
+			r.Inconclusive("server: trial skipped after a watchdog expiry earlier in this process")
+			return
+		}
 		c := cache.New([]string{"t1", "t2"})
 		srv, err := subscribe.NewServer(c)
 		if err != nil {
@@ -1550,7 +1563,7 @@ func modeServer(r *vlib.Run) {
 						r.Inconclusive("server: Subscribe returned before the sync response")
 					}
 				default:
-					r.Inconclusive("server: sync response not observed within the watchdog")
+					stalled(r, "server: sync response not observed within the watchdog")
 				}
 				return
 			}
@@ -1605,7 +1618,7 @@ func modeServer(r *vlib.Run) {
 					return false
 				})
 				if !ok {
-					r.Inconclusive("server: barrier notification not observed within the watchdog")
+					stalled(r, "server: barrier notification not observed within the watchdog (every subscriber of the target must be offered it; the stream stayed silent)")
 					return false
 				}
 			}
@@ -1706,7 +1719,7 @@ func modeServer(r *vlib.Run) {
 					return false
 				}
 			case <-wd.Done():
-				r.Inconclusive("server: Subscribe did not return within the watchdog after cancellation")
+				stalled(r, "server: Subscribe did not return within the watchdog after cancellation")
 				return false
 			}
 			ls.ended = true
